@@ -23,6 +23,7 @@
 #include "ctl_sched.h"
 #include <pthread.h>
 #include <sched.h>
+#include <time.h>
 
 #define K_DTOR 100
 #define K_GIVE 101
@@ -31,11 +32,13 @@
 typedef struct { char kind; int id; int rc; } call_t;
 #define MAXLOG 4096
 static call_t glog[MAXLOG]; static int nlog = 0;
-static int log_mode = 0;            /* 0 = plain append, 1 = stress (atomic append), 2 = off */
+static int log_mode = 0;            /* 0 = plain append, 1 = stress (atomic append), 2 = off, 3 = race (per-group counter) */
 static volatile int s_dn = 0; static int s_dlog[64], s_drc[64];
 
+static void race_count(parsec_object_t *o);
 static void log_call(char kind, const char *name, parsec_object_t *o)
 {
+    if( 3 == log_mode ) { if( 'd' == kind ) race_count(o); return; }
     int id = atoi(name + 1);
     if( 2 == log_mode ) return;
     if( 1 == log_mode ) {
@@ -342,6 +345,91 @@ static void stress(const char *caseline, int rounds)
     pv_stat("stress_rounds", rounds);
 }
 
+/* targeted free-running search: G groups of n threads; in every group the leader constructs an object
+ * (static storage, so a second destruction is counted instead of corrupting the heap) holding as
+ * many references as the programs need, all n threads meet at a spin barrier (no sleeping) and run
+ * their programs at once — typically "n threads release the last n references" — and the leader
+ * then checks that exactly one release observed zero and every destructor ran exactly once. */
+#define RACE_MAXG 8
+typedef struct {
+    volatile long arrive; char pad0[56];
+    volatile long done;   char pad1[56];
+    volatile int dcalls;  char pad2[60];
+    volatile int zeros;   char pad3[60];
+    volatile int stop;    char pad4[60];
+    parsec_object_t *obj; long objects, bad, first_idx; int first_dcalls, first_zeros; char pad5[24];
+} race_group_t;
+static race_group_t rg[RACE_MAXG] __attribute__((aligned(64)));
+static int race_ndt; static double race_deadline;
+static void race_count(parsec_object_t *o) { __sync_fetch_and_add(&rg[((pvobj_t*)o)->tag].dcalls, 1); }
+static double now_s(void) { struct timespec ts; clock_gettime(CLOCK_MONOTONIC, &ts); return ts.tv_sec + 1e-9 * ts.tv_nsec; }
+static void *race_worker(void *p)
+{
+    int g = (int)((intptr_t)p / MAXT), j = (int)((intptr_t)p % MAXT);
+    race_group_t *G = &rg[g];
+    uint64_t x = 0x9E3779B97F4A7C15ULL * (uint64_t)((intptr_t)p + 1);
+    for(long it = 0; ; it++) {
+        if( 0 == j ) {                                  /* leader: verdict on the previous object, next object */
+            if( it > 0 ) {
+                while( G->done < (long)nthr * it ) ;
+                if( G->zeros != 1 || G->dcalls != race_ndt ) {
+                    if( 0 == G->bad ) { G->first_idx = it - 1; G->first_dcalls = G->dcalls; G->first_zeros = G->zeros; }
+                    G->bad++;
+                }
+                G->objects++;
+                if( 0 == (it & 1023) && now_s() > race_deadline ) G->stop = 1;
+            }
+            if( !G->stop ) {
+                G->dcalls = 0; G->zeros = 0;
+                PARSEC_OBJ_CONSTRUCT_INTERNAL(G->obj, c_ent->cls);
+                ((pvobj_t*)G->obj)->tag = g;
+                for(int i = 1; i < c_c0; i++) PARSEC_OBJ_RETAIN(G->obj);
+            }
+        }
+        __sync_fetch_and_add(&G->arrive, 1);
+        while( G->arrive < (long)nthr * (it + 1) ) ;
+        if( G->stop ) break;
+        x ^= x << 13; x ^= x >> 7; x ^= x << 17;         /* a few cycles of jitter so that the alignment varies */
+        for(int d = (int)(x & 7); d > 0; d--) __asm__ __volatile__("" ::: "memory");
+        for(int i = 0; i < plen[j]; i++) {
+            if( prog[j][i].op == 'R' ) { PARSEC_OBJ_RETAIN(G->obj); }
+            else if( prog[j][i].op == 'L' ) {
+                parsec_object_t *q = G->obj;
+                PARSEC_OBJ_RELEASE(q);
+                if( NULL == q ) __sync_fetch_and_add(&G->zeros, 1);
+            }
+        }
+        __sync_fetch_and_add(&G->done, 1);
+    }
+    return NULL;
+}
+static void race(const char *caseline, int groups, double seconds)
+{
+    pthread_t th[RACE_MAXG * MAXT];
+    int expect = c_c0;
+    for(int t = 0; t < nthr; t++) for(int i = 0; i < plen[t]; i++) expect += (prog[t][i].op == 'R') - (prog[t][i].op == 'L');
+    if( groups < 1 || groups > RACE_MAXG || c_dyn || 0 != expect || !locally_safe() ) { printf("%s => rejected\n", caseline); return; }
+    create_object(); print_header(caseline);
+    race_ndt = 0; for(void **a = (void**)c_ent->cls->cls_destruct_array; *a; a++) race_ndt++;
+    destroy_object();
+    parsec_class_initialize(c_ent->cls);
+    memset(rg, 0, sizeof rg);
+    for(int g = 0; g < groups; g++) if( posix_memalign((void**)&rg[g].obj, 64, c_ent->cls->cls_sizeof + 64) ) exit(3);
+    log_mode = 3; race_deadline = now_s() + seconds;
+    for(int g = 0; g < groups; g++) for(int j = 0; j < nthr; j++) pthread_create(&th[g * nthr + j], NULL, race_worker, (void*)(intptr_t)(g * MAXT + j));
+    for(int i = 0; i < groups * nthr; i++) pthread_join(th[i], NULL);
+    log_mode = 0;
+    long objects = 0;
+    for(int g = 0; g < groups; g++) {
+        objects += rg[g].objects;
+        if( rg[g].bad )
+            printf("!viol C34 race %s: %d threads ran their programs at once on a fresh object: object #%ld of group %d saw %d release(s) observe zero and %d destructor call(s), expected 1 and %d; %ld of %ld objects of this group wrong\n",
+                   caseline, nthr, rg[g].first_idx, g, rg[g].first_zeros, rg[g].first_dcalls, race_ndt, rg[g].bad, rg[g].objects);
+        free(rg[g].obj);
+    }
+    pv_stat("race_objects", objects);
+}
+
 /* the cooperative scheduler runs one thread at a time: keeping all of them on the CPU the
  * controller is on makes the semaphore hand-offs cheap on a loaded machine; the free-running
  * stress gets the original CPU set back */
@@ -371,7 +459,7 @@ static void conc_case(char *line)
     for(int t = 0; t < nthr; t++) { if( parse_thread(tok[4 + t], t) ) { printf("%s => bad-op\n", caseline); return; } c_c0 += h0[t]; }
     if( c_c0 < 1 ) c_c0 = 1;
     if( c_dyn && !locally_safe() ) { printf("%s => rejected\n", caseline); return; }
-    pin(0 != strncmp(pol, "stress ", 7));
+    pin(0 != strncmp(pol, "stress ", 7) && 0 != strncmp(pol, "race ", 5));
     if( !strncmp(pol, "rng ", 4) ) {
         pv_rng_t r = { strtoull(pol + 4, NULL, 10) };
         one_run(caseline, ctl_choose_rng, &r);
@@ -385,6 +473,9 @@ static void conc_case(char *line)
         while( *p && len < 1024 ) { while( *p == ' ' ) p++; if( !*p ) break; sc[len++] = atoi(p); while( *p && *p != ' ' ) p++; }
         ctl_replay_t rp = { sc, len };
         one_run(caseline, choose_replay_then_lowest, &rp);
+    } else if( !strncmp(pol, "race ", 5) ) {
+        int groups = 0; double secs = 0; sscanf(pol + 5, "%d %lf", &groups, &secs);
+        race(caseline, groups, secs);
     } else if( !strncmp(pol, "stress ", 7) ) {
         if( !locally_safe() ) { printf("%s => rejected\n", caseline); return; }
         stress(caseline, atoi(pol + 7));
